@@ -36,6 +36,8 @@ fn gen(seed: u64, idx: u64, _tier: Tier) -> Plan {
     world_knobs(&mut rng, &mut plan, faulty);
     if faulty {
         plan.world.faults.send_err = *rng.pick(&[0u32, 30]);
+        // a transient receive error must not lose or duplicate anything: the datagram stays queued
+        plan.world.faults.recv_err = *rng.pick(&[0u32, 30]);
     }
     let bs = s.batch_size as u32;
     plan.server = Some(s);
